@@ -149,6 +149,27 @@ def bk2(p, res):
                     res.ok("BK-2", {"kernel": m, "twin": "name stem %s" % sorted(sa & sb)} if n % 40 == 1 else None)
                 elif (m, tuple(sorted(d.get("n") for d in cb)), tuple(sorted(d.get("n") for d in ca))) in NAME_TWINS:
                     res.ok("BK-2", {"kernel": m, "twin": "frozen name table"})
+                elif not ca and cb:
+                    # the reference kernel is written inline, the AVX kernel forwards: the callee must carry the method's own name
+                    # (decorations stripped) and receive the method's parameters in their declared order
+                    def norm(x):
+                        x = re.sub(r"_(avx2|avx|fma|scalar|ref)$", "", x)
+                        x = re.sub(r"^v(?=i128_)", "", x)
+                        return re.sub(r"^ntt_", "", x)
+                    flb = Flow(fb)
+                    problems = []
+                    for _, tt, d in lib_calls(fb):
+                        if norm(d.get("n", "")) != norm(m):
+                            problems.append(("other-kernel:%s" % d.get("n"), "forwards to `%s`, a kernel of another name" % d.get("n")))
+                            continue
+                        order = [sorted(r[1] for r in flb.op_roots(a) if r[0] == "param") for a in tt["a"]]
+                        seq = [o[0] for o in order if len(o) == 1]
+                        if any(len(o) > 1 for o in order) or seq != sorted(seq) or len(set(seq)) != len(seq):
+                            problems.append(("operands-permuted:%s" % d.get("n"), "passes its parameters to `%s` in another order (%s)" % (d.get("n"), seq)))
+                    if problems:
+                        res.bad("BK-2", "%s::%s" % (avx, m), problems[0][0], "%s::%s %s while the reference kernel is written inline: the two backends compute different maps" % (avx, m, problems[0][1]), site=fb.where())
+                    else:
+                        res.ok("BK-2", {"kernel": m, "twin": "reference inline; AVX forwards to the kernel of the same name with parameters in order"} if n % 10 == 1 else None)
                 elif not ca or not cb:
                     res.undec("BK-2", "%s::%s: one side is not a forwarder" % (t.rsplit("::", 1)[-1], m))
                 else:
